@@ -10,23 +10,24 @@ signature text taken from the harness (`check --kf-sigs`) or from EXTRA below.
 UNCLASSIFIED failures are printed and never written anywhere.
 """
 import json, sys, subprocess, os, collections
+ROOT = os.environ.get("VERIF_ROOT", "/verif")
 
 EXTRA = {}  # id -> (summary, signature) for findings whose signature lives in a property module
 
 def main():
     prop = sys.argv[1]
     apply = "--apply" in sys.argv
-    path = f"/verif/target/survey-{prop}.jsonl"
+    path = f"{ROOT}/target/survey-{prop}.jsonl"
     rows = [json.loads(l) for l in open(path)] if os.path.exists(path) else []
-    sigs = {s["id"]: s for s in json.loads(subprocess.check_output(["/verif/target/debug/check", "--kf-sigs"]))}
-    extra_path = f"/verif/target/kf-extra-{prop}.json"
+    sigs = {s["id"]: s for s in json.loads(subprocess.check_output([ROOT + "/target/debug/check", "--kf-sigs"]))}
+    extra_path = f"{ROOT}/target/kf-extra-{prop}.json"
     if os.path.exists(extra_path):
         for k, v in json.load(open(extra_path)).items():
             sigs[k] = {"id": k, "summary": v["summary"], "signature": v["signature"]}
     by = collections.defaultdict(list)
     for r in rows:
         by[r["class"]].append(r)
-    kf_path = "/verif/known_findings.json"
+    kf_path = ROOT + "/known_findings.json"
     kf = json.load(open(kf_path))
     changed = False
     for cls, rs in sorted(by.items()):
@@ -40,9 +41,9 @@ def main():
         w = rs[0]
         rel = f"replays/{prop}/kf-{cls}.json"
         if apply:
-            os.makedirs(f"/verif/replays/{prop}", exist_ok=True)
+            os.makedirs(f"{ROOT}/replays/{prop}", exist_ok=True)
             doc = {"property": prop, "check": w["check"], "expect": f"known:{cls}", "message": w["message"], "case": w["case"]}
-            json.dump(doc, open(f"/verif/{rel}", "w"), indent=1)
+            json.dump(doc, open(f"{ROOT}/{rel}", "w"), indent=1)
             ent = next((e for e in kf["findings"] if e["id"] == cls and e["property"] == prop), None)
             if ent is None:
                 kf["findings"].append({"id": cls, "property": prop, "status": "open",
